@@ -562,6 +562,8 @@ def rule_meson_parent(ck: Check, repo: Repo, rid: str) -> None:
     for c in ast.walk(fn):
         if isinstance(c, ast.Call) and isinstance(c.func, ast.Attribute) and c.func.attr in ("match", "fullmatch", "search") and c.args:
             loops = [p for p in ast.walk(fn) if isinstance(p, ast.For) and c in list(ast.walk(p)) and "MESON" in ast.unparse(p.iter)]
+            loops += [p for p in ast.walk(fn) if isinstance(p, (ast.GeneratorExp, ast.ListComp, ast.SetComp)) and c in list(ast.walk(p))
+                      and any("MESON" in ast.unparse(g.iter) for g in p.generators)]
             if loops or "MESON" in ast.unparse(c.func.value):
                 ops.append((deep_text(fn, c.args[0]), c))
     params = [a.arg for a in fn.args.args + fn.args.kwonlyargs]
@@ -819,7 +821,7 @@ def all_paths_rules(r, repo: Repo, ck: Check) -> None:
     for n in under:
         for g in n.generators:
             src_txt = deep_text(ap, g.iter)
-            children_resolved = ".resolve()" in src_txt or ".absolute()" in src_txt
+            children_resolved = ".resolve()" in src_txt or ".absolute()" in src_txt or re.search(r"\bmap\((Path|pathlib\.Path)\.(resolve|absolute),", src_txt) is not None
             for i in g.ifs:
                 for c in ast.walk(i):
                     operand = None
@@ -1009,7 +1011,10 @@ def rule_vcs(ck: Check, repo: Repo) -> None:
                     " `--root ../proj` (or from a subdirectory) the ignored-files listing belongs to another tree", repo.loc(ec))
     n_q = 0
     for sq, sf in sorted(repo.functions.items()):
-        if not sq.startswith("reuse.vcs.") or sf.name.startswith("in_repo") or sf.name == "find_root":
+        # listing queries are made by instance methods (the strategy of one project); root discovery (class methods: in_repo,
+        # find_root and their shared runner) runs in the directory it is asked about
+        if not sq.startswith("reuse.vcs.") or sf.name.startswith("in_repo") or "find_root" in sf.name \
+                or not (sf.args.args and sf.args.args[0].arg == "self"):
             continue
         for c in ast.walk(sf):
             if isinstance(c, ast.Call) and ast.unparse(c.func) == "execute_command":
